@@ -196,6 +196,29 @@ func runC20(c *Ctx) {
 			r.Fail("R1", fname(f)+":appends", c.fpos(f), "the walker never adds anything to its result")
 		}
 
+		// one scan: every access to the list's elements happens in the one walk loop (a separate
+		// pre-scan of the level returns matches out of document order)
+		{
+			key := fname(f) + ":single-scan"
+			loops := flow.Loops(f)
+			extra := false
+			var at ssa.Instruction
+			flow.Instrs(f, func(in ssa.Instruction) {
+				ia, ok := in.(*ssa.IndexAddr)
+				if !ok || ia.X != ssa.Value(w.avps) {
+					return
+				}
+				if l := flow.InnermostLoop(loops, ia); l != nil && l.Head != w.loop.Head {
+					extra, at = true, ia
+				}
+			})
+			if extra {
+				r.Fail("R2", key, c.pos(at), "the walker scans its AVP list in a second loop besides the depth-first walk: a match found there is returned ahead of earlier elements' nested matches (not document order)")
+			} else {
+				r.Ok("R2", key, c.fpos(f), "the AVP list is scanned only by the depth-first walk loop")
+			}
+		}
+
 		// ---- R2 ----
 		head := w.loop.Head.Instrs[0]
 		// pre-order: no path from the recursive call to the match append within the same iteration
